@@ -29,7 +29,7 @@ meta.update({
     "demo.py on the unchanged worktree -> exit %d" % ex["demo on unchanged tree"],
     "git apply patch.diff -> exit %d" % ex["apply"],
     "demo.py with the change -> exit %d" % ex["demo with change"],
-    "/tmp/seedtools/run_suite.py (the pinned pytest command; all 2582 baseline ids must pass) -> exit %d" % ex["suite"],
+    "/verif/tools/run_suite.py (the pinned pytest command; all 2582 baseline ids must pass) -> exit %d" % ex["suite"],
     "VERIF_REPO=<worktree> ./check %s quick -> exit %d" % (pid, ex.get("check", -1)),
   ],
   "check_exit": ex.get("check"),
